@@ -188,6 +188,11 @@ func evalC19(c *Ctx, cs C19Case) string {
 			c.Inconclusive("generation timed out (C13's business)")
 			continue
 		}
+		if r.EnvironmentFailure() {
+			// the property is about failures attributable to the input
+			c.Infra("the CLI failed for a reason of the machine, not of its input: exit %d, %s", r.Exit, clip(lastLine(r.Stderr), 200))
+			return ""
+		}
 		now, err := os.ReadFile(out)
 		if r.Failed() {
 			c.Class("failed:" + faultRoot(cs.Fault))
